@@ -140,6 +140,11 @@ def build_overlay(prop, tag=None):
     attached = []
     orig_stat = {}
     for group_name, src, hfile in plan_mods():
+        hpath_probe = (os.path.join(gen_dir, hfile[4:]) if hfile.startswith("gen:") else os.path.join(HARNESS_DIR, hfile))
+        # attach only the harness files that serve this property: a file of another property
+        # cannot break (or slow down) this property's build
+        if os.path.exists(hpath_probe) and not any(h.get("property") == prop for h in parse_harness_file(hpath_probe)):
+            continue
         target = os.path.join(ws, src)
         if not os.path.exists(target):
             raise Inconclusive(f"overlay: anchored source {src} no longer exists in /repo")
@@ -156,7 +161,12 @@ def build_overlay(prop, tag=None):
         os.utime(target, (st.st_atime, max(st.st_mtime, plan_mtime)))
         if src not in attached:
             attached.append(src)
+    used_groups = {g for g, src, hf in plan_mods()
+                   if any(h.get("property") == prop for h in parse_harness_file(
+                       os.path.join(gen_dir, hf[4:]) if hf.startswith("gen:") else os.path.join(HARNESS_DIR, hf)))}
     for group_name, g in plan.GROUPS.items():
+        if group_name not in used_groups:
+            continue
         for src, rules in g.get("rewrites", {}).items():
             target = os.path.join(ws, src)
             st = orig_stat.setdefault(target, os.stat(target))
@@ -236,6 +246,14 @@ def classify(h, res, log_text):
     if res is None:
         return {"verdict": "inconclusive", "reason": "no result for harness (build error, timeout or crash)"}
     checks = res.get("checks", [])
+    if not checks:
+        return {"verdict": "inconclusive", "status": res.get("status"), "duration_ms": res.get("duration_ms"),
+                "reason": f"harness status {res.get('status')} with no property results (timeout / OOM / tool error)"}
+    # Kani passes --nan-check to CBMC: every float operation that *can* produce NaN is reported as
+    # a failed check of category "NaN". Producing NaN is legal IEEE-754 behaviour (and part of
+    # what C05 specifies), so these are not verdicts; they are counted separately.
+    nan_checks = [c for c in checks if c.get("category") == "NaN"]
+    checks = [c for c in checks if c.get("category") != "NaN"]
     failed = [c for c in checks if c["status"].lower() in ("failure", "failed")]
     undet = [c for c in checks if c["status"].lower() in ("undetermined", "solver_error")]
     covers = [c for c in checks if c.get("category") == "cover" or c["status"].lower() in ("satisfied", "unsatisfiable", "uncoverable")]
@@ -252,6 +270,7 @@ def classify(h, res, log_text):
         "covers_satisfied": sum(1 for c in covers if c["status"].lower() == "satisfied"),
         "covers_total": len(covers),
         "duration_ms": res.get("duration_ms"),
+        "nan_checks_ignored": len(nan_checks),
     }
     if expect == "trap":
         # the one defined trap: the only failed checks are division/remainder-by-zero checks and
@@ -290,7 +309,7 @@ def classify(h, res, log_text):
             {"description": c.get("description"), "function": c.get("function"),
              "category": c.get("category"), "location": c.get("location")} for c in real_fail][:20]
         return info
-    if str(res.get("status", "")).lower() != "success":
+    if str(res.get("status", "")).lower() != "success" and not nan_checks:
         info["verdict"] = "inconclusive"
         info["reason"] = f"harness status {res.get('status')} without a failed check (timeout / OOM / tool error)"
         return info
@@ -374,11 +393,13 @@ def run_property(prop, tier, only, keep_ws, jobs, seed):
         runs = []
         # invocations share one cargo target dir (cargo serialises the builds itself); the CBMC
         # phases overlap.
-        with cf.ThreadPoolExecutor(max_workers=max(1, min(4, len(batches)))) as ex:
+        with cf.ThreadPoolExecutor(max_workers=max(1, len(batches))) as ex:
             futs = {}
-            per_batch_jobs = max(1, jobs // max(1, min(4, len(batches))))
+            total = sum(len(bh) for bh in batches.values())
             for (group, cbmc_args), bh in batches.items():
                 extra = cbmc_args.split() if cbmc_args else []
+                # CBMC threads in proportion to the batch size (at least 1, all batches run at once)
+                per_batch_jobs = max(1, round(jobs * len(bh) / max(1, total)))
                 futs[ex.submit(run_kani, ws, prop, group, bh, per_batch_jobs, None, extra, default_timeout)] = (group, bh)
             for fut in cf.as_completed(futs):
                 group, bh = futs[fut]
@@ -539,7 +560,7 @@ def main():
     ap.add_argument("--tier", default=os.environ.get("VERIF_TIER", "quick"), choices=["quick", "thorough"])
     ap.add_argument("--only")
     ap.add_argument("--keep-ws", action="store_true")
-    ap.add_argument("--jobs", type=int, default=int(os.environ.get("VERIF_JOBS", "12")))
+    ap.add_argument("--jobs", type=int, default=int(os.environ.get("VERIF_JOBS", "14")))
     ap.add_argument("--replay")
     ap.add_argument("--warm", action="store_true")
     ap.add_argument("--list", action="store_true")
